@@ -86,8 +86,17 @@ def main():
     for i in range(nruns):
         rng = random.Random(core.derive_seed(args.seed, pid, tier, i))
         recs.append((i, mod.generate(rng, tier, i)))
+    # regression corpus: the minimised replay of every defect of this property that was repaired in /repo (fixed_replays/) is executed on
+    # every run of the check, so a repaired defect that returns is reported deterministically and not only if the seeded search meets it again
+    import glob
+    corpus = []
+    for path in sorted(glob.glob(os.path.join(VERIF, 'fixed_replays', pid + '-*.json'))):
+        with open(path) as f:
+            rp = json.load(f)
+        if rp.get('property', pid) == pid:
+            corpus.append((path, rp.get('history', []) + [rp['record']]))
     if hasattr(mod, 'prepare'):
-        mod.prepare(tier, [r for _, r in recs])
+        mod.prepare(tier, [r for _, r in recs] + [r for _, seq in corpus for r in seq])
     known = core.load_known(pid)
 
     last = [time.monotonic()]
@@ -207,6 +216,26 @@ def main():
             log(f'NONREPRODUCIBLE {check}: replay in fresh interpreter gave rc={cp.returncode}\n{cp.stdout[-1500:]}\n{cp.stderr[-1500:]}')
             if exit_code == 0:
                 exit_code = 2
+
+    corpus_failed = 0
+    for path, seq in corpus:
+        res = core.execute_records(pid, list(enumerate(seq)), batch=len(seq), nproc=1, hard_timeout=plan.get('hard_timeout', 600.0) * len(seq),
+                                   soft_timeout=plan.get('soft_timeout'))[len(seq) - 1]
+        viol, _ = core.split_failures(res, known)
+        if viol:
+            corpus_failed += 1
+            nviol += 1
+            for v in viol[:3]:
+                log(f"  failing check: {v['check']} :: {v['detail']}  ctx={json.dumps(v['ctx'], default=str)}")
+            log(f'  (regression corpus: the repaired defect recorded in {os.path.relpath(path, VERIF)} is back)')
+            log(f'VIOLATION property={pid} replay={path}')
+            exit_code = 1
+        elif res['verdict'] == 'harness_error':
+            log(f'HARNESS-ERROR in regression corpus file {path}:\n' + res.get('note', ''))
+            if exit_code == 0:
+                exit_code = 2
+    counters['regression_corpus_files'] = len(corpus)
+    counters['regression_corpus_failing'] = corpus_failed
 
     if n_harness:
         log(f'HARNESS-ERROR in {n_harness} runs; first (run {harness_notes[0][0]}):\n{harness_notes[0][1]}')
